@@ -174,6 +174,42 @@ class SymTime:
     def __mul__(self, o):
         return SymTime(self.t * self._v(o))
 
+    __rmul__ = __mul__
+
+    # SimTime is an int subclass: every other int operation is inherited and yields a plain int
+    def __floordiv__(self, o):
+        return self.t // self._v(o)
+
+    def __rfloordiv__(self, o):
+        return self._v(o) // self.t
+
+    def __mod__(self, o):
+        return self.t % self._v(o)
+
+    def __rmod__(self, o):
+        return self._v(o) % self.t
+
+    def __divmod__(self, o):
+        return (self.t // self._v(o), self.t % self._v(o))
+
+    def __truediv__(self, o):
+        return self.t / self._v(o)
+
+    def __rtruediv__(self, o):
+        return self._v(o) / self.t
+
+    def __neg__(self):
+        return -self.t
+
+    def __pos__(self):
+        return self.t
+
+    def __abs__(self):
+        return abs(self.t)
+
+    def __bool__(self):
+        return self.t != 0
+
     def __lt__(self, o):
         return self.t < self._v(o)
 
